@@ -46,7 +46,8 @@ ASSUMPTIONS = [
 REQUIRED = ["constructions", "points_multiset_checked", "mst_length_checked", "limit_checked",
             "limit_root_not_exempt", "root_wants_more_than_k", "parents_replayed", "balanced_replayed",
             "float32_clouds", "integer_clouds", "clouds_with_coincident_points", "far_clouds", "soma_given", "soma_first_point", "class_PointsToMST",
-            "class_PointsToCuntzMST", "tap_call"]
+            "class_PointsToCuntzMST", "tap_call", "transform_instances_reused",
+            "rejected_calls_before_construction"]
 FLOOR = {"quick": 650, "thorough": 13000}
 SHARDS = {"quick": 8, "thorough": 16}
 TIMEOUT = {"quick": 300, "thorough": 3000}
@@ -192,6 +193,21 @@ def execute(ctx, case):
                 bf = 0.0
             else:
                 tf = PointsToCuntzMST(bf=bf, furcations=karg, exclude_soma=ex, sort=srt)
+            if case["seed"] % 2:
+                # the same transform object was used before: once for another cloud, and once in
+                # a way it rejects (the cloud as a nested list / the soma as a 1x3 row) -- the
+                # call proper comes after the caller has corrected its arguments
+                other = np.random.default_rng(case["seed"]).normal(0, 30, (7, 3))
+                tf(other)
+                ctx.count("transform_instances_reused")
+                try:
+                    if soma is not None and case["seed"] % 4 == 1:
+                        tf(pts, np.asarray(soma).reshape(1, 3))
+                    else:
+                        tf(pts.tolist(), *([] if soma is None else [soma]))
+                    ctx.count("lenient_argument_forms_accepted")
+                except Exception:
+                    ctx.count("rejected_calls_before_construction")
             t = tf(pts, soma) if soma is not None else tf(pts)
     except Exception as e:
         return ctx.violation("construction-raised", f"{cls}(bf={bf}, furcations={k}, exclude_soma="
